@@ -32,7 +32,8 @@ def cases(tier, seed):
     n = 110 if tier == "quick" else 12000
     for i in range(n):
         fams = ["fine_patch", "refined"] if i % 5 == 4 else None  # high-resolution regional patches / locally refined closed meshes
-        yield {"mesh": gen.random_mesh(rng, 150 if tier == "quick" else 900, families=fams), "dseed": int(rng.integers(0, 10**6))}
+        yield {"mesh": gen.random_mesh(rng, 150 if tier == "quick" else 900, families=fams), "dseed": int(rng.integers(0, 10**6)),
+               "source": ["topology", "topology", "topology", "centres_xyz_metres", "centres_xyz_and_lonlat_metres", "mpas"][int(rng.integers(0, 6))]}
 
 
 def run_case(ctx, case):
@@ -41,8 +42,37 @@ def run_case(ctx, case):
     m = gen.build(d)
     if ctx.mode == "jit-off" and m.n_face > 120:
         return
-    g = ux.grid_from_mesh(m)
-    dual = check_dual(ctx, case, g, m, {"closed": bool(m.closed)})
+    source = case.get("source", "topology")
+    if source.startswith("centres_xyz"):
+        # the source ships Cartesian face centres on a sphere of Earth radius (metres), as production meshes do
+        C = np.array([ref.unit(m.ring_pos(i).mean(axis=0)) for i in range(m.n_face)]) * 6371229.0
+        extra = {"face_x": C[:, 0], "face_y": C[:, 1], "face_z": C[:, 2]}
+        if source == "centres_xyz_and_lonlat_metres":
+            cl, ca = ref.xyz_to_lonlat(C)
+            extra.update(face_lon=np.array(cl), face_lat=np.array(ca))
+        g = ux.grid_from_mesh(m, extra=extra)
+    elif source == "mpas" and ref.is_manifold(m.faces):
+        from .. import dialects
+
+        try:
+            ds, info = dialects.mpas_dataset(m, np.random.default_rng(case["dseed"]), force={"xyz": True, "radius": 6371229.0})
+            # cell centres exactly at the normalised corner mean, so that "the face's centre" is unambiguous
+            C = np.array([ref.unit(m.ring_pos(i).mean(axis=0)) for i in range(m.n_face)])
+            cl, ca = ref.xyz_to_lonlat(C)
+            ds["lonCell"] = ds["lonCell"].copy(data=np.mod(np.deg2rad(cl), 2 * np.pi))
+            ds["latCell"] = ds["latCell"].copy(data=np.deg2rad(ca))
+            for k_, ax in enumerate("xyz"):
+                if ax + "Cell" in ds:
+                    ds[ax + "Cell"] = ds[ax + "Cell"].copy(data=C[:, k_] * 6371229.0)
+            g = U.open_grid(ds)
+        except Exception as e:
+            ctx.check("no_exception", False, {"stage": "open_mpas", "exc": core.exc_sig(e)}, {"exc": repr(e), "mesh": d})
+            return
+    else:
+        source = "topology"
+        g = ux.grid_from_mesh(m)
+    ctx.observe("source_" + source)
+    dual = check_dual(ctx, case, g, m, {"closed": bool(m.closed), "source": source})
     if dual is None:
         return
     # the dual of grids DERIVED from this one (after the source has built its own node->faces table for the dual above):
@@ -94,8 +124,9 @@ def check_dual(ctx, case, g, m, sig0, with_data=True):
     # positions: dual node k at primal face k's centre (normalised corner mean)
     cent = np.array([ref.unit(m.ring_pos(i).mean(axis=0)) for i in range(m.n_face)])
     dpos = ux.grid_node_xyz(dual)
-    err = float(np.max(ref.angle(cent, dpos)))
-    ctx.check("node_at_face_centre", err < 1e-9, sig0, {"max_err_rad": err, "mesh": d})
+    # centres inside the library's pole-snapping band (|z| > 1 - 1e-8, sanctioned by C04) are reported at the pole
+    err = float(np.max(ref.angle(cent, dpos) - np.where(np.abs(cent[:, 2]) > 1 - 1.01e-8, 1.5e-4, 1e-9)))
+    ctx.check("node_at_face_centre", err < 0, sig0, {"max_err_over_tolerance_rad": err, "mesh": d})
     rows = ux.rows(dual.face_node_connectivity.values)
     probs = ux.standard_table(dual.face_node_connectivity, dual.n_node)
     ctx.check("padding_end", not probs, dict(sig0, problem=probs[0] if probs else ""), {"problems": probs, "mesh": d})
